@@ -205,7 +205,7 @@ def run(ctx):
     base_kinds = collections.Counter(c["base_kind"].split(":")[0] for c in cases)
     legal_kinds = collections.Counter(c["base_kind"].split(":")[0] for c in legal)
     # 2. injections into the legal base
-    cap = 3 if q else 8
+    cap = 6 if q else 10
     by_rule = collections.defaultdict(list)
     per_rule = collections.Counter()
     for c in legal:
@@ -219,13 +219,17 @@ def run(ctx):
     for rule in sl.RULES:
         l = by_rule.get(rule, [])
         rng.shuffle(l)
+        # classes of sites (Einsum index and tensor names abstracted); every round takes one of each class, in random order
         groups = collections.defaultdict(list)
         for c in l:
-            groups[(c["base_kind"].split(":")[0], re.sub(r"\d+", "#", c["site"]))].append(c)
+            groups[(c["base_kind"].split(":")[0] if rule in ("missing_config",) else "",
+                    re.sub(r"einsum \d+", "einsum", c["site"]))].append(c)
         keep = []
         while len(keep) < limit and any(groups.values()):
-            for k in sorted(groups):
-                if groups[k] and len(keep) < limit:
+            ks = sorted(k for k in groups if groups[k])
+            rng.shuffle(ks)
+            for k in ks:
+                if len(keep) < limit:
                     keep.append(groups[k].pop())
         for c in keep:
             try:
@@ -316,6 +320,10 @@ def run(ctx):
 
 def replay(ctx, rep):
     r = rep["replay"]
+    if not isinstance(r, dict) or "yaml" not in r:
+        print("this replay names a broken theorem / degenerate population, not a specification: %s" % rep.get("what"))
+        print("VIOLATION property=C18 replay=%s no-failing-input-found" % rep.get("path", "<given file>"))
+        return 1
     text = r["yaml"]
     kind, payload = compile_text(text)
     c = {"text": text, "coq": sl.coq_spec(sl.to_model(sl.load(text))), "code": (kind, payload)}
